@@ -95,7 +95,7 @@ Proof.
   intros t. pose proof (hav_a_range (rad (lon c1)) (rad (lat c1)) (rad (lon c2)) (rad (lat c2))) as Ha.
   destruct (half_angle _ Ha) as (Hh & Hs & Hc).
   assert (E : t = 2 * atan2 (sqrt (hav_of c1 c2)) (sqrt (1 - hav_of c1 c2))).
-  { unfold t, hdist_raw, hav_of. field. pose proof Rearth_pos; lra. }
+  { unfold t, hdist_raw, hav_of. rewrite Rmax_right by lra. field. pose proof Rearth_pos; lra. }
   fold (hav_of c1 c2) in Ha, Hh, Hs, Hc.
   rewrite E. split; [lra|].
   rewrite cos_2a_sin, Hs. rewrite Rmult_assoc, sqrt_def by lra. reflexivity.
@@ -149,7 +149,7 @@ Proof.
   assert (E : hav_a (rad (lon c)) (rad (lat c)) (rad (lon c)) (rad (lat c)) = 0).
   { rewrite hav_a_cos. replace (rad (lat c) - rad (lat c)) with 0 by ring.
     replace (rad (lon c) - rad (lon c)) with 0 by ring. rewrite cos_0. field. }
-  rewrite E, Rminus_0_r, sqrt_0, sqrt_1, atan2_pos by lra.
+  rewrite E, Rminus_0_r, Rmax_right, sqrt_0, sqrt_1, atan2_pos by lra.
   replace (0 / 1) with 0 by field. rewrite atan_0. ring.
 Qed.
 
